@@ -432,6 +432,16 @@ def gen_case(rng, style=None) -> dict:
                 col[npre + c] = rng.randint(-16, 32) / 8.0
             if not p["when"] and rng.chance(0.12):
                 col[npre + c] = NAN           # unconditional exogenization at a date with no observation
+    # conditional exogenization through a lag-based transform (or flat) where the transform datum exists but the lagged LEVEL the
+    # implied value needs has no observation (typically: no history supplied for a variable whose equation does not read its lag)
+    for p in plan:
+        if p["when"] and PLAN_USES_LAG[p["kind"]]:
+            lagcol = npre + p["cols"][0] + p["shift"]
+            if 0 <= lagcol < npre and rng.chance(0.6):
+                data[p["name"]][lagcol] = NAN
+                if rng.chance(0.5):
+                    for cc in range(lagcol):
+                        data[p["name"]][cc] = NAN          # no history at all
     # ---- non-default option target_db: the results are collected into an existing databox ---------------------------------
     target = None
     if rng.chance(0.25):
@@ -1015,7 +1025,18 @@ def oracle(ctx: Ctx, case, order, status, vals, out_db, eff=None):
                 func = e["lhs"].split("(")[0].strip().replace("_", "") if "(" in e["lhs"] else None
                 tgt_fmt = None if point is None else PLAN_FMT[point["kind"]]
                 tgt_col = None if tgt_fmt is None else case["data"].get(tgt_fmt.format(e["name"]))
-                no_data = point is not None and point["when"] and tgt_fmt is not None and (tgt_col is None or tgt_col[npre + c] is None)
+                # documented rule for when_data: exogenize only where the implied VALUE is available -- it is not when the transform
+                # datum is missing, or when the lagged level the transform refers to is missing (and final); simulate otherwise
+                no_data = False
+                if point is not None and point["when"]:
+                    tgt_missing = tgt_fmt is not None and (tgt_col is None or tgt_col[npre + c] is None)
+                    lag_missing = False
+                    if PLAN_USES_LAG[point["kind"]]:
+                        lc = c + point["shift"]
+                        lvv = read(e["name"], lc)
+                        lag_missing = (lc < c and npre + lc >= 0 and (e["name"], lc) not in written_later[k]
+                                       and (lvv is None or lvv != lvv))
+                    no_data = tgt_missing or lag_missing
                 demand = e["ident"] or point is None or no_data
                 lag_ok = func in (None, "log") or (read(e["name"], c - 1) is not None and read(e["name"], c - 1) == read(e["name"], c - 1))
                 if demand and lag_ok and abs(rhs_v + res_v) < 300:
